@@ -39,6 +39,26 @@ def gen(rng, tier):
             cases.append({"kind": "erase", "recipe": V.enc_recipe(r),
                           "truth": {k: [list(v[0]), list(v[1])] for k, v in cg["truth"].items()},
                           "erased": [list(d) for d in done]})
+    # Input shapes held in NARROW integer arrays, followed by un-annotated convolutions / pooling whose output extent or channel
+    # count leaves that dtype's range (the declared types are numbers, not dtype-bound)
+    import numpy as np
+    for _ in range(10 if tier == "quick" else 120):
+        dt, n = rng.choice([("uint8", 250), ("uint8", 255), ("int8", 100), ("int8", 127), ("int16", 32760), ("uint16", 65530)])
+        nd = rng.choice([1, 2])
+        cin = rng.choice([1, 2])
+        cout = rng.choice([3, 4, 300 if dt in ("uint8", "int8") else 5])
+        pad = rng.choice([4, 15, 20])
+        k = 3
+        sp = [n] * nd
+        out_sp = [n + 2 * pad - (k - 1)] * nd
+        conv = {"k": "Conv1d" if nd == 1 else "Conv2d",
+                "args": {"input_shape": None, "weight": np.zeros([cout, cin] + [k] * nd, dtype="float32"), "stride": 1, "padding": pad,
+                         "dilation": 1, "groups": 1, "bias": np.zeros(cout, dtype="float32")}}
+        nodes = {"input": {"k": "Input", "args": {"input_type": np.array([cin] + sp, dtype=dt)}}, "conv": conv,
+                 "output": {"k": "Output", "args": {"output_type": None}}}
+        truth = {"input": [[cin] + sp, [cin] + sp], "conv": [[cin] + sp, [cout] + out_sp], "output": [[cout] + out_sp, [cout] + out_sp]}
+        r = {"k": "NIRGraph", "nodes": nodes, "edges": [("input", "conv"), ("conv", "output")]}
+        cases.append({"kind": "erase", "recipe": V.enc_recipe(r), "truth": truth, "erased": [["conv", "none"], ["output", "none"]]})
     return cases
 
 
